@@ -136,6 +136,7 @@ def harnesses(tier):
             hs.append(NoMutate(c02.Subset(m, k, N), [("data", "recv")]))
         hs.append(NoMutate(c02.Subset("filter", k, N, "kw"), [("data", "recv")]))
         hs.append(NoMutate(c03.Sort([k], N), [("data", "recv")]))
+        if k in ("T", "U", "f"): hs.append(NoMutate(c03.Sort([k], N, prep="deepcopy"), [("data", "recv")]))
         hs.append(NoMutate(c04.Group("aggregate", [k], N), [("data", "recv")], group_exception=True))
         hs.append(NoMutate(c04.Group("modify", [k], N), [("data", "recv")], group_exception=True))
         for j in c05.JOINS:
@@ -154,7 +155,7 @@ def harnesses(tier):
     kk = ["f", "i", "T"] if q else ["f", "U", "T"]
     for m in ("rbind", "cbind", "update", "modify", "select", "unselect", "rename"):
         hs.append(NoMutate(c09.Reshape(m, kk, 2, "one" if m == "rbind" else ""), [("data", "recv"), ("others", "others")] if m in ("rbind", "cbind", "update") else [("data", "recv")]))
-    hs.append(NoMutate(c04.Group("count", ["f"], N), [("data", "recv")], group_exception=True))
+    hs.append(NoMutate(c04.Group("count", ["f"], N), [("data", "recv")], group_exception=False))
     hs.append(DfMisc("geo_to_data_frame", "f", N))
     for m in ("as_float", "as_object", "as_boolean"):
         hs.append(VecMisc(m, "i", N))
